@@ -189,7 +189,9 @@ N10(r) ==
 Drifts(r) ==
   {f \in {<<"DRIFT", r.id, vi, what>> : vi \in Idx(r.vars), what \in {"opt-tree", "layout", "run", "effects"}} :
      LET v == r.vars[f[3]] IN
-     v.cout = "ok" /\ v.hasprog /\ v.costs = "none" /\ v.ev = "" /\ v.how # "dirx" /\
+     \* (a constant of a foreign Go type is decompiled and exported as its printed text, which reads back as
+     \*  another value: such trees are judged on outcomes only)
+     ~r.foreign /\ v.cout = "ok" /\ v.hasprog /\ v.costs = "none" /\ v.ev = "" /\ v.how # "dirx" /\
      LET T == Optimize(r.tree, v.m, [stateless |-> {v.stateless[i] : i \in 1..Len(v.stateless)}, costs |-> <<>>])
          L == Layout(T)
      IN CASE f[4] = "opt-tree" -> v.dok /\ ~TreeEq(Unfast(T), v.dtree)
